@@ -216,7 +216,45 @@ def ref_globals():
     return _GLOBALS
 
 
-def propagate_module_constants(tree, relpath):
+def _const_like(v):
+    return isinstance(v, ast.Constant) or (isinstance(v, ast.Tuple) and all(_const_like(e) for e in v.elts))
+
+
+def imported_constants(tree, relpath, loader):
+    """new constants of other package modules that this module imports by name (`from .tagging import UNMAPPED_JOB`): name -> value"""
+    import os
+    out = {}
+    if loader is None:
+        return out
+    for st in tree.body:
+        if not isinstance(st, ast.ImportFrom):
+            continue
+        if st.level:
+            base = os.path.dirname(relpath)
+            for _ in range(st.level - 1):
+                base = os.path.dirname(base)
+            modpath = os.path.join(base, *(st.module.split('.') if st.module else []))
+        elif st.module and st.module.startswith('singlecellmultiomics'):
+            modpath = st.module.replace('.', '/')
+        else:
+            continue
+        for rp in (modpath + '.py', modpath + '/__init__.py'):
+            known = ref_globals().get(rp)
+            if known is None:
+                continue
+            other = loader(rp)
+            if other is None:
+                continue
+            for al in st.names:
+                if al.name in known or al.name == '*':
+                    continue
+                defs = [d for d in other.body if isinstance(d, ast.Assign) and any(isinstance(t, ast.Name) and t.id == al.name for t in d.targets)]
+                if len(defs) == 1 and len(defs[0].targets) == 1 and _const_like(defs[0].value):
+                    out[al.asname or al.name] = defs[0].value
+    return out
+
+
+def propagate_module_constants(tree, relpath, loader=None):
     """new module-level names bound once to a constant / a dotted name (`_OFFSET = 33`, `_LETTERS = string.ascii_letters`) are substituted
     into the functions of the module (where they are not shadowed by a local binding)"""
     known = ref_globals().get(relpath)
@@ -230,11 +268,13 @@ def propagate_module_constants(tree, relpath):
                 counts[t.id] = counts.get(t.id, 0) + 1
         if isinstance(st, ast.Assign) and len(st.targets) == 1 and isinstance(st.targets[0], ast.Name) and st.targets[0].id not in known:
             v = st.value
-            simple = isinstance(v, ast.Constant) or (isinstance(v, ast.Attribute) and all(isinstance(x, (ast.Attribute, ast.Name)) for x in ast.walk(v) if not isinstance(x, ast.expr_context))) \
-                or (isinstance(v, (ast.Tuple,)) and all(isinstance(e, ast.Constant) for e in v.elts))
+            simple = _const_like(v) or (isinstance(v, ast.Attribute) and all(isinstance(x, (ast.Attribute, ast.Name)) for x in ast.walk(v) if not isinstance(x, ast.expr_context)))
             if simple:
                 cands[st.targets[0].id] = v
     cands = {k: v for k, v in cands.items() if counts.get(k, 0) == 1}
+    for k, v in imported_constants(tree, relpath, loader).items():
+        if counts.get(k, 0) <= 1:
+            cands[k] = v
     if not cands:
         return []
     done = []
@@ -255,10 +295,10 @@ def propagate_module_constants(tree, relpath):
     return sorted(set(done))
 
 
-def apply(tree, relpath):
+def apply(tree, relpath, loader=None):
     ref = alpha.reference().get(relpath)
     out = {}
-    mc = propagate_module_constants(tree, relpath)
+    mc = propagate_module_constants(tree, relpath, loader)
     if mc:
         out['<module constants>'] = mc
     if not ref:
